@@ -440,6 +440,12 @@ fn gen_case(rng: &mut Rng, ctx: &Ctx, pools: &Pools) -> CliCase {
         if rng.chance(0.4) {
             pre.push_str(&format!("@warn \"w-{}\"{}\n@debug \"d-{}\"{}\n", tagn, semi, tagn, semi));
         }
+        // a diagnostic whose expression cannot be evaluated: what the library makes of it under
+        // `quiet` (it does not even evaluate a @debug then) is what the tool has to make of it
+        if rng.chance(0.1) {
+            let d = *rng.pick(&["@debug 1px + 1s", "@debug $no-such-variable", "@warn 1px + 1s", "@debug \"#{1px + 1em}\""]);
+            post.push_str(&format!("\n{}{}\n", d, semi));
+        }
         if rng.chance(0.35) {
             if ext == "sass" {
                 post.push_str("\n.nonascii\n  content: \"é→ü\"\n");
